@@ -303,6 +303,10 @@ def handle (st : DState) (line : String) : DState × String :=
     match Framing.readCmd (s.length + 2) s with
     | some (c, _) => (st, toString c.length)
     | none => (st, "none")
+  | ["astring", maxLen, bytes] =>
+    match AStr.parse maxLen.toNat! (parseNats bytes) with
+    | some (v, rest) => (st, s!"{showNats v}|{showNats rest}")
+    | none => (st, "none")
   | ["struct", what, toks] =>
     -- the shape recognisers of `Structure` on a token stream (the harness sends what the real server wrote)
     match Structure.parseToks (toks.splitOn ",") with
